@@ -181,6 +181,42 @@ def h_neigh(B, grid, level, w):
                 B.eq("neighbourhood wraps: (i + c - w//2) mod shape", [nb[k, c]], [want])
 
 
+def h_hp_neigh(B, nside0, level, window):
+    """HEALPix level: the arithmetic neighbourhood windows (1 = the pixel itself, size = the whole sphere); the 9-pixel
+    window goes through jhealpix bit manipulation and stays outside the claim"""
+    import nifty.re.multi_grid as MG
+    g = MG.HEALPixGrid(nside0=nside0, depth=1)
+    gl = g.at(level)
+    size = int(gl.size)
+    w = 1 if window == "one" else size
+    i = sym_index(B, "i", (size,))
+    nb = np.asarray(jcall(B, lambda i: gl.neighborhood(i, (w,)), i), dtype=object).reshape(-1)
+    B.is_true("window has the requested number of entries", nb.shape[0] == w)
+    B.holds("HEALPix neighbours lie inside the level", _conj([(nb[c] >= 0) & (nb[c] <= size - 1) for c in range(w)], B))
+    B.holds("the pixel belongs to its own neighbourhood", _disj([nb[c] == i[0] for c in range(w)], B))
+    if w == size:
+        B.holds("the full-sphere window is a permutation of all pixels (pairwise distinct)",
+                _conj([~(nb[a] == nb[b]) if B.mode == "sym" else (nb[a] != nb[b]) for a in range(w) for b in range(a + 1, w)], B))
+
+
+def _conj(cs, B):
+    if B.mode != "sym":
+        return all(bool(c) for c in cs)
+    t = sc.SB(True)
+    for c in cs:
+        t = t & c
+    return t
+
+
+def _disj(cs, B):
+    if B.mode != "sym":
+        return any(bool(c) for c in cs)
+    t = sc.SB(False)
+    for c in cs:
+        t = t | c
+    return t
+
+
 def h_volume(B, grid, level):
     g = make(grid)
     gl, gn = g.at(level), g.at(level + 1)
@@ -218,10 +254,14 @@ def scenarios(tier, seed):
                     out.append(("neigh", {"grid": name, "level": lvl, "w": 2}))
         for lvl in range(depth):
             out.append(("volume", {"grid": name, "level": lvl}))
+    for window in ("one", "all"):
+        out.append(("hp_neigh", {"nside0": 1, "level": 0, "window": window}))
+    if tier == "thorough":
+        out.append(("hp_neigh", {"nside0": 1, "level": 1, "window": "all"}))
     return out
 
 
-HARNESSES = {"tree": h_tree, "cover": h_cover, "flat": h_flat, "coord": h_coord, "neigh": h_neigh, "volume": h_volume}
+HARNESSES = {"hp_neigh": h_hp_neigh, "tree": h_tree, "cover": h_cover, "flat": h_flat, "coord": h_coord, "neigh": h_neigh, "volume": h_volume}
 OPTS = {"quick": {"max_paths": 8, "budget_s": 400, "jobs": 12, "obl_timeout_ms": 60000}, "thorough": {"max_paths": 8, "budget_s": 1500, "jobs": 12}}
 
 META = {
@@ -240,6 +280,6 @@ META = {
     "bounds": {"grids": "9 configurations: regular 1-D/2-D (depth <= 2, splits 2 and 3, mixed), open 1-D/2-D with paddings 0-2, product, "
                         "each also flattened in serial and nest ordering", "axis lengths": "<= 12"},
     "stubs": ["jaxpr interpreter with an integer sort: XLA div/rem truncate, Python // and % floor; round(x) = integer within 1/2"],
-    "outside": ["coord2index of regular grids (uses numpy.rint on its argument: not traceable; the open-grid implementation is covered)", "HEALPix grids (jhealpix bit twiddling + ducc)", "logarithmic radial grids (exp/log of coordinates)", "SparseGrid", "out-of-range indices (wrap/clamp of _parse_index)"],
+    "outside": ["coord2index of regular grids (uses numpy.rint on its argument: not traceable; the open-grid implementation is covered)", "HEALPix grids except the arithmetic neighbourhood windows 1 and whole-sphere (the rest is jhealpix bit twiddling + ducc)", "logarithmic radial grids (exp/log of coordinates)", "SparseGrid", "out-of-range indices (wrap/clamp of _parse_index)"],
     "assumptions": ["0 <= index < shape; children() only for refined indices (inside the padding)"],
 }
